@@ -1,9 +1,10 @@
 """C06 - On-disk array stores keep exactly what was written, across reopen and crash.
 
 Functions under contract (real bodies read from elfi/store.py at run time, executed over proxies):
-  NpyArray: size, closed, initialized, __len__, memmap, __getitem__, __setitem__, append, truncate, clear, flush, close, __getstate__,
-            _prepare_header_data, _write_header_data (2 cases), _init_from_file_header, init_from_array
-  ArrayStore: _to_slice, __len__, __contains__, __getitem__, __setitem__, __delitem__, clear (2 cases)
+  NpyArray: size, closed, initialized, __len__, memmap, __getitem__, __setitem__, append (2 cases: initialised; first append to a new file),
+            truncate, clear, flush, close, __getstate__, _prepare_header_data, _write_header_data (2 cases), _init_from_file_header,
+            init_from_array, __init__ (3 cases: reopen or create; truncate=True; initial array), __setstate__, delete (2 cases)
+  ArrayStore: __init__ (2 cases), _to_slice, __len__, __contains__, __getitem__, __setitem__, __delitem__, clear (2 cases)
   NpyStore:   __setitem__, __delitem__
 
 Model of the LIBRARY objects only (file object, io.BytesIO, numpy.lib.format, np.memmap, ndarray data):
@@ -15,6 +16,11 @@ Model of the LIBRARY objects only (file object, io.BytesIO, numpy.lib.format, np
      the content the file shows (its first hdr_rows rows) is a logical content of Hist
   ghost `buffered`: bytes written through fs may sit in its user-space buffer until the next seek/truncate/flush/close; a store through
   the memmap bypasses that buffer, so it carries the call-pre "nothing buffered".
+Batches handed in by a caller (append / __setitem__ / init_from_array / store[i] = batch) carry a SYMBOLIC memory layout (C-contiguous or
+not, Fortran-contiguous or not); ndarray.tobytes(order) has its real meaning ('C' = logical rows, 'F' = column-major image, 'A' = column-major
+iff F- and not C-contiguous), a store through the memmap is layout-independent.  File names are opaque path ids; os.path.exists is an
+arbitrary predicate (file-system oracle), os.path.basename / "+ '.npy'" / "[-4:] == '.npy'" uninterpreted functions with the three string
+facts of path_facts; open() creates / reopens the ghost file; self.__init__ inside __setstate__ is a recording stub under the Init contract.
 View of an NpyArray: rows = disk content on [0, shape[0]);  npy_ok is the representation invariant (precondition and postcondition of
 every public method; the two header helpers, which run in the middle of an operation, have the weaker write_header_pre).
 Callees under contract are replaced at call sites by their contract (spec_* functions / stub properties of NpySelf, ArrayModel, _Super).
@@ -26,21 +32,28 @@ Defects this check refutes on the pinned tree (each with a native replay from bo
 """
 MANIFEST = {
     'category': 'proof',
-    'text': 'NpyArray.append/truncate/clear/flush/close/__getstate__/memmap/__getitem__/__setitem__/_prepare_header_data/_write_header_data/'
-            '_init_from_file_header/init_from_array and the list-of-batches view of ArrayStore/NpyStore (__setitem__/__getitem__/__delitem__/'
-            '__contains__/__len__/_to_slice/clear) are verified for all row counts, row widths, item sizes, header lengths and batch sizes against a '
+    'text': 'NpyArray.append (also the first append to a new file)/truncate/clear/flush/close/__getstate__/__setstate__/__init__ (reopen, create, '
+            'truncate=True, initial array)/delete/memmap/__getitem__/__setitem__/_prepare_header_data/_write_header_data/'
+            '_init_from_file_header/init_from_array and the list-of-batches view of ArrayStore/NpyStore (__init__ of ArrayStore/__setitem__/__getitem__/__delitem__/'
+            '__contains__/__len__/_to_slice/clear) are verified for all row counts, row widths, item sizes, header lengths, batch sizes, memory layouts of '
+            'the batch handed in (C-/Fortran-ordered, transposed, strided: ndarray.tobytes(order) with its real meaning) and all file-system states '
+            '(os.path.exists an arbitrary predicate: which file a reopened / unpickled store is bound to) against a '
             'ghost model of the .npy file: representation invariant npy_ok before and after every method, functional postconditions from '
             'the property text, and after EVERY file operation the two crash obligations (file still loads; visible content is a logical '
             'content seen since the last completed flush). Obligations are generated from the current source and discharged by z3/cvc5. '
             'Exhaustive operation sequences on the real NpyStore with numpy.load after every flush/close/pickle and a kill (child os._exit) '
-            'around every low-level file call are the labelled bounded stand-in and replay vehicle.',
+            'around every low-level file call, the same sequences with Fortran-ordered / transposed / strided / byte-swapped batches, and file-name '
+            'scenarios (namesake files in the working directory, moved folder, missing file, ArrayPool node stores, names with and without .npy, delete) '
+            'are the labelled bounded stand-in and replay vehicle.',
     'note': 'Trusted: pyvc engine; file-object model (each seek/write/truncate/flush/close is atomic and applied in program order, buffered writes '
             'reach the OS at the next seek/truncate/flush/close, A-IO); numpy.lib.format header writer/reader (length non-decreasing in the row '
             'count, round trip with space padding; sanity-tested every run); np.memmap reads/writes the mapped rows immediately. Kill points inside '
             'one write or one memmap store, torn pages and durability beyond the page cache are outside the model. Callers must pass batches of '
-            'exactly batch_size rows and 0 <= length <= len to truncate. __setstate__/__init__/delete and OutputPool save/open: bounded only.',
+            'exactly batch_size rows and 0 <= length <= len to truncate. File names are opaque ids under ONE working directory (a relative name keeps '
+            'its meaning); the pickle library, NpyStore.__init__ and OutputPool save/open: bounded only.',
     'technique': 'deductive: crash-Hoare-logic VCs from the real AST (pyvc proxies for the file object / memmap, ghost disk + history), z3/cvc5; '
-                 'bounded stand-in: all op sequences <= 4 (quick) / <= 5, one configuration <= 6 (thorough) x kill around every file call of the last op; sequences <= 3/4 on stores opened over an existing longer or ragged file',
+                 'file-system oracle (uninterpreted exists/basename) for __init__/__setstate__/delete; symbolic array layout flags; '
+                 'bounded stand-in: all op sequences <= 4 (quick) / <= 5, one configuration <= 6 (thorough) x kill around every file call of the last op; sequences <= 3/4 on stores opened over an existing longer or ragged file; sequences <= 4/5 with 6 batch layouts; 56 file-name scenarios',
 }
 
 import z3
@@ -763,6 +776,8 @@ class NpySelf:
         if name.startswith('_vc') or name.startswith('__'):
             raise AttributeError(name)
         spec = METHOD_SPECS.get(name)
+        if name == 'append' and 'append' in self._stubs:
+            spec = spec_append_first
         if spec is None:
             raise OutOfSubset('NpyArray.%s is not modelled' % name)
         if name not in self._stubs:
@@ -1280,7 +1295,8 @@ class InitFromArray(NpyContract):
         o = s.o
         if not isinstance(o.shape, Shape):
             return [('initialised', z3.BoolVal(False))]
-        return [('an empty, loadable file with the oversized fixed-length header', z3.And(o.shape.rows == 0, s.g.disk.hdr_rows == 0))] + npy_ok(o, s.g)
+        return [('an empty, loadable file with the oversized fixed-length header', z3.And(o.shape.rows == 0, s.g.disk.hdr_rows == 0)),
+                ('the header is written (nothing pending), no data row is written', z3.And(pend_state(o._header_bytes_to_write)[0], s.g.disk.data_rows == 0))] + npy_ok(o, s.g)
 
 
 # ------------------------------------------------------------------------------------------------ store level (list of batches)
@@ -1971,8 +1987,183 @@ class Delete(NpyContract):
                 ('the object is invalidated (deleted, uninitialised, no memmap)', gone)]
 
 
+def new_file_pre(o, g):
+    """a just created / emptied file under an uninitialised NpyArray"""
+    d = g.disk
+    fs = o.__dict__.get('fs')
+    unset = all(o.__dict__.get(k, 0) is None for k in ('header_length', 'itemsize', 'shape', 'dtype', '_header_bytes_to_write'))
+    if not isinstance(fs, FileSpec):
+        return z3.BoolVal(False)
+    return z3.And(z3.BoolVal(unset and o.__dict__.get('fortran_order') is False), z3.Not(fs._closed), d.data_rows == 0, d.prefix_H == -1, d.hdr_rows == -1)
+
+
+def spec_init_from_array(o, array):
+    """callee contract of NpyArray.init_from_array (proved by InitFromArray)"""
+    vc, g, d = cur(), o._g, o._g.disk
+    vc.libcall('stub:init_from_array', ())
+    if not isinstance(array, Rows):
+        raise OutOfSubset('init_from_array(%s)' % type(array).__name__)
+    vc.oblige('call-pre[init_from_array: uninitialised array over an open, empty file]', new_file_pre(o, g))
+    vc.oblige('call-pre[init_from_array: the array fixes the row shape and dtype of the file; fixed header length]',
+              z3.And(array.tail == g.tail, array.dt == g.dtype, array.k >= 0, Wf(g.tail) >= 1, ISZ(g.dtype) >= 1, g.H == HLEN(MAXROWS, g.tail, g.dtype)))
+    vc.assume(hlen_facts(IV(0), g.tail, g.dtype), g.H >= 13)
+    o.shape, o.dtype = Shape(IV(0), Tail(g.tail)), DType(g.dtype)
+    o.header_length, o.itemsize = SIntB(g.H), SInt(ISZ(g.dtype))
+    o._header_bytes_to_write = None
+    d.prefix_H, d.hdr_rows, d.hdr_tail, d.hdr_dtype = g.H, IV(0), g.tail, g.dtype
+    o.fs.pos = vc.fresh_int('pos_after_init_from_array')
+    o.fs.dirty = z3.BoolVal(True)
+    g.ops.append('stub:init_from_array')
+
+
+def spec_append_first(o, array):
+    """callee contract of NpyArray.append on an uninitialised array over a new file (proved by AppendFirst)"""
+    vc, g, d = cur(), o._g, o._g.disk
+    vc.libcall('stub:append', ())
+    if not isinstance(array, Rows):
+        raise OutOfSubset('append(%s)' % type(array).__name__)
+    vc.oblige('call-pre[append (first): uninitialised array over an open, empty file]', new_file_pre(o, g))
+    vc.oblige('call-pre[append (first): the array fixes the row shape and dtype of the file; fixed header length]',
+              z3.And(array.tail == g.tail, array.dt == g.dtype, array.k >= 0, array.k <= MAXROWS, Wf(g.tail) >= 1, ISZ(g.dtype) >= 1, g.H == HLEN(MAXROWS, g.tail, g.dtype)))
+    vc.assume(hlen_facts(array.k, g.tail, g.dtype), g.H >= 13)
+    k, val = array.k, array.val
+    o.shape, o.dtype = Shape(k, Tail(g.tail)), DType(g.dtype)
+    o.header_length, o.itemsize = SIntB(g.H), SInt(ISZ(g.dtype))
+    o._header_bytes_to_write = HeaderBytes(k, g.tail, g.dtype, g.H, IV(0), g.H)
+    d.prefix_H, d.hdr_rows, d.hdr_tail, d.hdr_dtype, d.data_rows = g.H, IV(0), g.tail, g.dtype, k
+    d.content = lambda i: val(i)
+    g.hist = [(IV(0), d.content), (k, d.content)]
+    o.fs.pos = vc.fresh_int('pos_after_append')
+    o.fs.dirty = z3.BoolVal(True)
+    o._memmap = None
+    g.ops.append('stub:append')
+
+
+METHOD_SPECS['init_from_array'] = spec_init_from_array
+
+
+class AppendFirst(NpyContract):
+    """first append: the array is uninitialised over a just created, empty file.  Functional obligations only (the crash clause of the
+    property starts at the first completed flush)."""
+    target = 'elfi/store.py::NpyArray.append'
+    label = 'first append to a new, empty file'
+    crash = False
+    stubs = ('init_from_array', '_prepare_header_data')
+
+    def setup(self, vc):
+        s, a, kw = NpyContract.setup(self, vc)
+        o, g = s.o, s.g
+        o.header_length = o.itemsize = o.shape = o.dtype = o._header_bytes_to_write = None
+        o.fs = FileSpec(g, z3.BoolVal(False), z3.Int('fs_pos'))
+        o._memmap = None
+        g.disk = Disk(IV(-1), IV(-1), IV(-1), IV(-1), IV(0), g.c0)
+        g.hist = [(IV(0), g.c0)]
+        g.write_row = IV(0)
+        k = z3.Int('k')
+        vc.fin_bounds.append(k)
+        aval = z3.Function('a_row', I, I)
+        s.k, s.aval = k, aval
+        return s, (o, arg_rows(k, lambda j: aval(j), g.tail, g.dtype)), {}
+
+    def requires(self, s):
+        g = s.g
+        return [s.k >= 0, s.k <= MAXROWS, Wf(g.tail) >= 1, ISZ(g.dtype) >= 1, g.H == HLEN(MAXROWS, g.tail, g.dtype)]
+
+    def ensures(self, s, result):
+        o, g = s.o, s.g
+        if not isinstance(o.shape, Shape):
+            return [('initialised', z3.BoolVal(False))]
+        n, isnone, d = final(s)
+        return [("rows' = a: row count", n == s.k),
+                ("rows' = a: the rows are those of a, in order", forall_range(0, s.k, lambda j: d.content(j) == s.aval(j), 'j')),
+                ('the file holds exactly those rows and still loads (as an empty array until the header is flushed)', z3.And(d.data_rows == s.k, d.hdr_rows == 0)),
+                ('a header for the new row count is prepared, no memmap is cached', z3.And(z3.Not(isnone), z3.BoolVal(o._memmap is None)))] + npy_ok(o, g)
+
+
+class InitArray(Init):
+    """NpyArray(filename, array): a new (or emptied) file that holds exactly `array`, flushed"""
+    stubs = ('append', 'flush')
+
+    def __init__(self):
+        self.truncate = True
+        self.label = 'initial array given'
+
+    def setup(self, vc):
+        s, a, kw = Init.setup(self, vc)
+        g = s.g
+        k = z3.Int('k')
+        vc.fin_bounds.append(k)
+        aval = z3.Function('a_row', I, I)
+        s.k, s.aval = k, aval
+        return s, a + (arg_rows(k, lambda j: aval(j), g.tail, g.dtype),), {}
+
+    def requires(self, s):
+        g = s.g
+        return [path_facts(s.fn), s.k >= 0, s.k <= MAXROWS, Wf(g.tail) >= 1, ISZ(g.dtype) >= 1, g.H == HLEN(MAXROWS, g.tail, g.dtype)]
+
+    def raises(self, s):
+        g = s.g
+        return {'OverflowError': HLEN(s.k, g.tail, g.dtype) > g.H}
+
+    def ensures(self, s, result):
+        o, g, w, d = s.o, s.g, s.w, s.g.disk
+        fnm, fs = o.__dict__.get('filename'), o.__dict__.get('fs')
+        if not isinstance(fnm, SPath) or not isinstance(fs, FileSpec) or not isinstance(fs.name, SPath) or not isinstance(o.shape, Shape):
+            return [('the store is bound to an open, initialised file', z3.BoolVal(False))]
+        one = len(w.opened) == 1
+        isnone = pend_state(o._header_bytes_to_write)[0]
+        return [("the store is bound to the named file: filename (+ '.npy' unless it ends with it)", z3.And(fnm.t == s.W, fs.name.t == s.W)),
+                ('exactly that one file is opened (created or emptied), nothing is removed',
+                 z3.And(z3.BoolVal(one and not w.removed and w.opened[0][1] == 'w+b'), (w.opened[0][0] == s.W) if one else z3.BoolVal(False))),
+                ('the store reports exactly the rows of the initial array', z3.And(o.shape.rows == s.k, forall_range(0, s.k, lambda j: d.content(j) == s.aval(j), 'j'))),
+                ('flushed: the file is a .npy file that loads to exactly the initial array', z3.And(g.loads(), d.hdr_rows == s.k, d.data_rows == s.k, isnone))] + npy_ok(o, g)
+
+class _Logger:
+    def __getattr__(self, k):
+        if k in ('warning', 'info', 'debug', 'error'):
+            return lambda *a, **kw: None
+        raise AttributeError(k)
+
+
+class AInit(StoreContract):
+    """ArrayStore.__init__: how many batches a store opened over an array (an existing file) exposes"""
+    target = 'elfi/store.py::ArrayStore.__init__'
+
+    def __init__(self, given):
+        self.given = given
+        self.label = 'n_batches given' if given else 'n_batches default (-1)'
+
+    def env(self, vc):
+        e = StoreContract.env(self, vc)
+        e['logger'] = _Logger()
+        return e
+
+    def setup(self, vc):
+        s, a, kw = StoreContract.setup(self, vc)
+        o = s.o
+        del o.array, o.batch_size, o.n_batches          # __init__ sets them
+        return s, (o, s.arr, SInt(s.bs)) + ((SInt(s.nb),) if self.given else ()), {}
+
+    def requires(self, s):
+        return [s.bs >= 1, s.L >= 0] + ([s.nb >= 0, s.bs * s.nb <= s.L] if self.given else [])
+
+    def ensures(self, s, result):
+        o = s.o
+        d = o.__dict__
+        if not all(k in d for k in ('array', 'batch_size', 'n_batches')):
+            return [('array, batch_size and n_batches are set', z3.BoolVal(False))]
+        nb2 = T(o.n_batches)
+        out = [('the store is a view of the given array with the given batch size', z3.And(z3.BoolVal(o.array is s.arr), T(o.batch_size) == s.bs)),
+               ('opening changes nothing in the array', z3.BoolVal(not s.arr.log)),
+               ('store_ok: the exposed batches are inside the array', self.store_ok(s, nb2, s.arr.L))]
+        if self.given:
+            out.append(('exactly the requested number of batches is exposed', nb2 == s.nb))
+        else:
+            out.append(('all whole batches of the array are exposed: bs*n <= len(array) < bs*(n+1)', z3.And(s.bs * nb2 <= s.L, s.L < s.bs * (nb2 + 1))))
+        return out
+
 CONTRACTS = [PropSize(), PropLen(), PropClosed(), PropInitialized(),
-             Append(), Truncate(), Clear(), Flush(), Close(), GetState(), PropMemmap(), NpyGetItem(), NpySetItem(), PrepareHeader(), WriteHeader(), WriteHeader(True), InitFromFileHeader(), InitFromArray(), Init(False), Init(True), SetState(), Delete(True), Delete(False),
+             Append(), Truncate(), Clear(), Flush(), Close(), GetState(), PropMemmap(), NpyGetItem(), NpySetItem(), PrepareHeader(), WriteHeader(), WriteHeader(True), InitFromFileHeader(), InitFromArray(), AppendFirst(), Init(False), Init(True), InitArray(), SetState(), Delete(True), Delete(False), AInit(False), AInit(True),
              AToSlice(), ALen(), AContains(), AGet(), ASet(), ADel(), AClear(True), AClear(False), NSet(), NDel()]
 
 TRUSTED_BASE = ['file object (io.BufferedRandom) model A-IO: seek/write/truncate/flush/close are atomic, applied in program order; written bytes may stay '
@@ -1981,7 +2172,15 @@ TRUSTED_BASE = ['file object (io.BufferedRandom) model A-IO: seek/write/truncate
                 'numpy.lib.format.write_array_header_2_0: total length > 12, non-decreasing in the row count up to 2**64 (sanity-tested each run)',
                 'numpy.lib.format.read_array_header_2_0 / numpy.load: round trip of (shape, C order, dtype) through a space-padded fixed-length header; '
                 'numpy.load needs header rows <= rows present and ignores trailing bytes (sanity-tested each run)',
-                'np.prod((r,)+tail) = r*prod(tail); ndarray.tobytes("C") = rows in order, prod(tail)*itemsize bytes each (sanity-tested)',
+                'np.prod((r,)+tail) = r*prod(tail); ndarray.tobytes("C") / tobytes() = LOGICAL rows in order, prod(tail)*itemsize bytes each, whatever '
+                'the memory layout; tobytes("F") = column-major image; tobytes("A") = tobytes("F") iff the array is Fortran- and not C-contiguous; the '
+                'column-major image equals the row-major one when the array is empty or a row has one item, otherwise nothing is assumed about it '
+                '(all sanity-tested on Fortran-ordered, transposed and strided arrays); np.ascontiguousarray / np.asfortranarray / copy() keep the logical value',
+                'memmap[a:b] = value stores the logical rows of value for any layout / byte order of value (sanity-tested)',
+                "file names: p + '.npy' ends with '.npy'; basename of a name ending with '.npy' ends with '.npy' (explicit instances); os.path.exists is an "
+                "arbitrary predicate over path ids, changed only by open(.., 'w+b') (creates) and os.remove; open(p, 'r+b') needs an existing file and "
+                "leaves it untouched, open(p, 'w+b') creates or empties it; the file object's name is p",
+                'pickle creates the object without calling __init__ and hands the dict of __getstate__ to __setstate__ (bounded stand-in only)',
                 'np.memmap(fileobj, offset, shape, dtype): item access reads/writes exactly the addressed rows of the file, immediately and bypassing the '
                 'file object buffer; creating it seeks the file object, which pushes its buffer out (sanity-tested)',
                 'pyvc engine: proxies, modular stubs, spec tables']
@@ -1991,10 +2190,22 @@ ASSUMPTIONS = ['A-IO: kill points inside one write/truncate call, torn pages, du
                'store[i] is specified for i in store only (the code does not raise for i >= len(store); callers guard with `in`)',
                'rows are non-empty (prod(shape[1:]) >= 1, itemsize >= 1); an array never holds more than 2**64 rows (MAX_SHAPE_LEN; then no OverflowError)',
                'the crash clause is checked from the first completed flush on; init_from_array (first append to an empty file) carries functional obligations only',
+               'an existing array file that is reopened is one a store left behind after a completed flush / close (it loads and has the fixed oversized '
+               'header: posts of Flush / Close / GetState); the name pickled by __getstate__ ends with .npy (Init post)',
+               'ONE working directory: a path id denotes the same file throughout a call and between pickling and unpickling (a relative name '
+               'interpreted against a different working directory is outside the model)',
                'NpyStore: the file holds whole batches (len(array) is a multiple of batch_size, as after any sequence of the operations of the property)']
-NOT_PROVED = ['closing and reopening, or pickling and unpickling: NpyArray.__init__ / __setstate__ (os.path lookups, open()) and delete are covered by the '
-              'bounded stand-in only; close, __getstate__ (flush first) and _init_from_file_header (reopen yields the rows the header shows) are proved',
-              'OutputPool/ArrayPool save/open (pickles stores next to the arrays): bounded stand-in only (NpyStore pickle round trip)']
+NOT_PROVED = ['closing and reopening, or pickling and unpickling: proved are close, __getstate__ (flush first, the state is the file name), __setstate__ '
+              '(bound to the pickled path whenever it exists, to the base name only otherwise, FileNotFoundError and deleted when neither exists, never '
+              'creates a file), NpyArray.__init__ (reopen reports the rows the header shows and leaves the file untouched; missing file / truncate=True '
+              '/ initial array: a new or emptied file holding exactly the array), _init_from_file_header, delete, ArrayStore.__init__. Bounded stand-in '
+              'only: the pickle library itself (object creation, copy.deepcopy), the OS (meaning of a relative file name when the working directory '
+              'changes between pickling and unpickling - see the report: stores obtained through ArrayPool.open carry the bare base name), NpyStore.__init__ '
+              '(isinstance dispatch + the two proved constructors)',
+              'OutputPool/ArrayPool save/open/_make_store_for (pickles stores next to the arrays): bounded stand-in only (NpyStore pickle round trip, '
+              'ArrayPool node stores next to a namesake file, save/close/open)',
+              'memory layouts outside the flags model: byte order of the batch (a byte-swapped batch has another dtype: append refuses it) and dtype '
+              'conversion by the memmap store are covered by the bounded layouts E / X only']
 
 
 def sanity():
